@@ -83,7 +83,7 @@ def body_total(s, optname):
 MACRO_TAILS = ['', '{}', '{}{}{}{}', '[]{}', '*{}{}', ' x', '{x}[y]{z}', '{', '[']
 
 
-QUICK_TAILS = ['', '{}{}{}{}', '[]{}']
+QUICK_TAILS = ['', '{}{}{}{}']
 
 
 def body_macro(k, lo, hi, optname, idx=None, tails=None):
@@ -96,8 +96,8 @@ def body_macro(k, lo, hi, optname, idx=None, tails=None):
             for t in (MACRO_TAILS if tails is None else QUICK_TAILS):
                 l2t(BS + nm + t, optname)
             l2t(BS + 'hat' + BS + nm, optname)
-            l2t(BS + 'textbf' + BS + nm + ' a', optname)
             if tails is None:
+                l2t(BS + 'textbf' + BS + nm + ' a', optname)
                 l2t(BS + 'frac' + BS + nm + BS + nm, optname)
                 l2t('$' + BS + nm + '{a}$ b', optname)
                 l2t('{' + BS + nm + '}', optname)
@@ -194,7 +194,7 @@ META = dict(
                'latex2text._defaultspecs (all replacement callables), latexwalker._defaultspecs (argument signatures)',
                'LatexWalker tolerant parsing underneath (see C06)'],
     bounds=dict(quick='every Unicode string of length <= 2 under 3 option sets; 13 skeletons with one free hole (default options); '
-                      'the %d macro names (of %d) whose walker signature takes arguments or whose text replacement is computed, in 5 '
+                      'the %d macro names (of %d) whose walker signature takes arguments or whose text replacement is computed, in 3 '
                       'concrete uses each, and every environment name (%d) in 5 uses (empty and missing arguments, end of input, as '
                       'argument of another macro, inside math), the name selected by a symbolic integer' % (
                           len(INTERESTING), len(MACROS), len(ENVS)),
